@@ -298,10 +298,11 @@ def run_history(n, ops):
                     d.callback(it)
                 elif tr.producer is not None:
                     e = {"e": "run"}
+                    prod = tr.producer             # pump this transfer only (draining the queue may register the next one)
                     for _ in range(50):
-                        if tr.producer is None:
+                        if tr.producer is not prod:
                             break
-                        tr.producer.resumeProducing()
+                        prod.resumeProducing()
                 else:
                     continue
             elif op[0] == "lost":
@@ -386,7 +387,7 @@ def random_ops(rng, n):
     return ops
 
 
-def short_histories(n):
+def short_histories(n, ntails=2):
     """Exhaustive-short: after a fixed successful login, every sequence of 2 ops from a focused alphabet, then
     run / lost / run -- covers every pair (long op or DELE or QUIT) x (any command) under pipelining and not."""
     first = [("line", c) for c in [("STAT", -1, -1), ("LIST", -1, -1), ("RETR", 1, -1), ("TOP", 1, 1), ("DELE", 1, -1),
@@ -396,7 +397,7 @@ def short_histories(n):
     out = []
     for a in first:
         for b in second:
-            for tl in tails:
+            for tl in tails[:ntails]:
                 out.append([("connect",), ("line", ("USER", 1, -1)), ("line", ("PASS", 1, -1)), ("line", ("DELE", n, -1)), a, b] + tl)
     return out
 
@@ -432,10 +433,10 @@ def run(ctx):
     traces = []
     ns = ctx.pick([2], [1, 2, 3])
     for n in ns:
-        for ops in short_histories(n):
+        for ops in short_histories(n, ctx.pick(1, 2)):
             traces.append(run_history(n, ops))
     nshort = len(traces)
-    for _ in range(ctx.pick(1200, 30000)):
+    for _ in range(ctx.pick(1000, 30000)):
         n = ctx.rng.choice([0, 1, 2, 2, 3, 3])
         traces.append(run_history(n, random_ops(ctx.rng, n)))
     ctx.note_traces(traces)
@@ -449,7 +450,7 @@ def run(ctx):
             if e["exc"]:
                 seen.add("exc:" + e["exc"])
     ctx.extra["observation_tags_seen"] = sorted(seen)
-    rej = ctx.validate("Pop3SessionTrace", traces, shard_size=1500)
+    rej = ctx.validate("Pop3SessionTrace", traces, shard_size=ctx.pick(3000, 4000))
     for x in rej[:10]:
         t = traces[x.idx]
         e = t["ev"][x.reached] if x.reached < len(t["ev"]) else None
